@@ -94,7 +94,7 @@ def run_job(rec: core.Recorder, job: dict, seed: int) -> None:
                     'second': {'same_lab': True, 'bust': False, 'requested': [draw(st.integers(1, k))]}}
         core.run_hypothesis(rec, eng, abort_spec(), check_after_abort, max_examples=job['n'], seed=seed, shrink=(b == 'controlled'))
         return
-    strat = specs.dag_spec(max_nodes=5 if eng == 'spawn' else 9, backends=(eng,), dup_bias=True, bust=True)
+    strat = specs.dag_spec(max_nodes=5 if eng == 'spawn' else 9, backends=(eng,), dup_bias=True, bust=True, corrupt_rate=15)
     core.run_hypothesis(rec, eng, strat, check, max_examples=job['n'], seed=seed,
                         shrink=(eng == 'controlled' or rec.tier == 'thorough'))
 
